@@ -154,31 +154,34 @@ def nameflow(ctx, R="R-C14-nameflow"):
             return None
         return "<%s>" % ".".join(ch)
 
-    local_attr = {}
-    for n in fac.body_nodes():
-        if isinstance(n, ast.Assign) and len(n.targets) == 1 and isinstance(n.targets[0], ast.Name):
-            chs = chains(n.value)
-            if chs:
-                local_attr[n.targets[0].id] = (chs, n.value)
-    rets = astq.returns_of(fac)
-    ctx.need(len(rets) == 1 and isinstance(rets[0].value, ast.Call) and astq.is_name(rets[0].value.func, fac.params[0]), R,
+    # the values handed to the constructor, forward-substituted (locals, loops written as comprehensions and helpers read through)
+    fev = SymEval(prog, fac).run()
+    ctx.need(len(fev.returns) == 1, R, "from_stft_frame_computer has %d returns" % len(fev.returns))
+    rv = fev.returns[0][1]
+    rets = [fev.returns[0][2]]
+    ctx.need(rv.op == "call" and rv.args[0] == "apply" and rv.args[1] == S.sym(fac.params[0]), R,
              "from_stft_frame_computer does not end in `return cls(...)`")
-    call = rets[0].value
     iparams = init.params[1:]
     bound = {}
-    for p, a in zip(iparams, call.args):
+    pos = [a for a in rv.args[2:] if not (a.op == "call" and str(a.args[0]).startswith("kw:"))]
+    for p, a in zip(iparams, pos):
         bound[p] = a
-    for k in call.keywords:
-        if k.arg:
-            bound[k.arg] = k.value
+    for a in rv.args[2:]:
+        if a.op == "call" and str(a.args[0]).startswith("kw:"):
+            bound[a.args[0][3:]] = a.args[1]
+
+    def echains(e):
+        out = []
+        for nm in sorted(S.symbols(e)):
+            if nm.startswith(comp + "."):
+                parts = nm.split(".")[1:]
+                parts[0] = underlying(parts[0])
+                out.append(tuple(parts))
+        return out
+
     n_checked = 0
     for p, a in bound.items():
-        chs, exprs = [], [a]
-        for x in ast.walk(a):
-            if isinstance(x, ast.Name) and x.id in local_attr:
-                chs += local_attr[x.id][0]
-                exprs.append(local_attr[x.id][1])
-        chs += chains(a)
+        chs = echains(a)
         attrs = [".".join(c) for c in chs]
         meanings = {meaning(c) for c in chs} - {None}
         if p == "offsets_and_truncated_filters":
@@ -186,6 +189,14 @@ def nameflow(ctx, R="R-C14-nameflow"):
             ctx.check(ok, R, fac, rets[0], "filters and start bins come from the computer's truncated responses",
                       "offsets_and_truncated_filters is built from %s" % attrs)
             n_checked += 1
+            # the (offset, filter) pairs keep their order: zip(starts, filters) unpacked as (o, x)
+            zips = [x for x in S.walk(a) if isinstance(x, S.E) and x.op == "call" and x.args[0] == "zip"]
+            okz = len(zips) >= 1 and all([echains(z_)[:1] for z_ in zips[0].args[1:]] == [[("_filt_start_idxs",)], [("_truncated_filts",)]] for _ in (0,))
+            if zips or not ok:
+                ctx.check(okz, R, fac, rets[0], "start bins are paired with their own filters, in bank order",
+                          "filters/offsets pairing is %s" % (S.show(zips[0])[:120] if zips else None))
+            else:
+                ctx.error(R, "cannot decide how start bins and filters are paired: %s" % S.show(a)[:160])
             continue
         if p not in NP_ATTR_MEANING.values():
             continue
@@ -195,17 +206,10 @@ def nameflow(ctx, R="R-C14-nameflow"):
                   % (p, ", ".join(attrs) or "nothing", p))
         # passed through unchanged (flags are not negated / recombined on the way)
         if meanings == {p} and p not in ("window", "frame_style"):
-            for e in exprs:
-                plain = isinstance(e, (ast.Name, ast.Attribute))
-                ctx.check(plain, R, fac, rets[0], "`%s` is passed through unchanged" % p, "`%s` is computed as %s on the way to the module" % (p, astq.text(e)[:60]))
+            ctx.check(a.op == "sym", R, fac, rets[0], "`%s` is passed through unchanged" % p, "`%s` is computed as %s on the way to the module" % (p, S.show(a)[:60]))
     for need in sorted(set(NP_ATTR_MEANING.values())):
         ctx.check(need in bound, R, fac, rets[0], "the computer's %s is handed to the module" % need,
                   "from_stft_frame_computer does not pass %s to the module; the default would be used" % need)
-    # the (offset, filter) pairs keep their order: zip(starts, filters) unpacked as (o, x)
-    zips = [c for c in astq.func_calls(fac) if astq.is_name(c.func, "zip")]
-    okz = len(zips) == 1 and [astq.text(a) for a in zips[0].args] == ["%s._filt_start_idxs" % comp, "%s._truncated_filts" % comp]
-    ctx.check(okz, R, fac, zips[0] if zips else MISSING(fac.node), "start bins are paired with their own filters, in bank order",
-              "filters/offsets pairing is %s" % (astq.text(zips[0]) if zips else None))
     # hop 2: __init__ param -> self attribute
     selfn = init.params[0]
     attr_of = {}
@@ -342,27 +346,25 @@ def wrappers(ctx, R="R-C14-wrappers"):
         c = tm.classes.get(cname)
         ctx.need(c is not None, R, "torch.%s vanished" % cname)
         fw = prog.own_method(c, "forward")
-        r = astq.returns_of(fw)
-        ok = len(r) == 1 and isinstance(r[0].value, ast.Call) and astq.is_self_attr(r[0].value.func, fw.params[0]) and \
-            len(r[0].value.args) == 1 and astq.is_name(r[0].value.args[0], fw.params[1])
-        ctx.check(ok, R, fw, r[0] if r else MISSING(fw.node), "%s.forward delegates to its wrapped NumPy call" % cname, "%s.forward is %s" % (cname, astq.text(r[0].value) if r else None))
-        helper = c.methods.get(r[0].value.func.attr) if ok else None
-        ctx.need(helper is not None, R, "helper of %s.forward not found" % cname)
-        hr = astq.returns_of(helper)
-        ctx.need(len(hr) == 1, R, "%s has more than one return" % helper.short)
-        v = hr[0].value
-        sigp = helper.params[1]
-        ok = isinstance(v, ast.Call) and prog.qualify(tm, v.func, helper) == "torch.tensor" and len(v.args) == 1
-        inner_ok = False
-        if ok:
-            a = v.args[0]
-            inner_ok = isinstance(a, ast.Call) and isinstance(a.func, ast.Attribute) and a.func.attr == call_attr and \
-                astq.is_self_attr(a.func.value, helper.params[0], target_attr) and len(a.args) == 1 and \
-                astq.text(a.args[0]) == "%s.cpu().numpy()" % sigp and not a.keywords
-            dev, dt = astq.kw(v, "device"), astq.kw(v, "dtype")
-            inner_ok = inner_ok and dev is not None and astq.text(dev) == "%s.device" % sigp and dt is not None and astq.text(dt) == "%s.dtype" % sigp
-        ctx.check(ok and inner_ok, R, helper, hr[0], "%s computes self.%s.%s(sig.cpu().numpy()) and re-wraps with the input's device and dtype" % (cname, target_attr, call_attr),
-                  "%s returns %s" % (helper.short, astq.text(v)))
+        ev = SymEval(prog, fw, inline_self=True).run()
+        ctx.need(len(ev.returns) == 1, R, "%s.forward has %d returns" % (cname, len(ev.returns)))
+        v, rnode = ev.returns[0][1], ev.returns[0][2]
+        sg = S.sym(fw.params[1])
+        arr = S.call(".numpy", S.call(".cpu", sg))
+        want = S.call("torch.tensor", S.call("." + call_attr, S.sym("self." + target_attr), arr),
+                      S.call("kw:device", S.sym(fw.params[1] + ".device")), S.call("kw:dtype", S.sym(fw.params[1] + ".dtype")))
+        what = "%s computes self.%s.%s(sig.cpu().numpy()) and re-wraps with the input's device and dtype" % (cname, target_attr, call_attr)
+        if v == want:
+            ctx.ok(R, fw.loc(rnode), what)
+            continue
+        from .. import scenario as SC
+        calls, syms = SC.vocabulary(v)
+        known = {"torch.tensor", "." + call_attr, ".numpy", ".cpu", ".detach", ".clone", ".copy", "torch.as_tensor", "torch.from_numpy", ".to"}
+        extra = {x for x in calls if not str(x).startswith("kw:")} - known
+        if extra or S.has_unknown(v) or SC.residual_conditions(v):
+            ctx.error(R, "cannot decide %s.forward: its value uses constructs outside the rule's vocabulary (%s): %s" % (cname, ", ".join(sorted(map(str, extra))), S.show(v)[:200]))
+        else:
+            ctx.bad(R, fw, rnode, "%s.forward returns %s ; documented: %s" % (cname, S.show(v)[:200], S.show(want)[:200]), what)
     # pre-emphasis stencil: y[i] = x[i] - coeff * x[i-1] with a zero before the first sample
     f = prog.func("torch.pytorch_preemphasize")
     ev = SymEval(prog, f).run()
